@@ -228,6 +228,21 @@ def run(pid, tier, seed, gate, replay=None):
                                                oracle=dict(failed_at=0, what=v), broken=None, failing_cases=len(bad),
                                                note="concurrent history: replaying runs the same programs again; the schedule is the OS's"))
         violations.append(dict(replay=rp, what=v))
+    keyruns = None
+    if pid == "C16" and not replay and not bad:
+        # user values other than cached values: a key type whose destructor re-enters the cache (the in-flight table keeps
+        # a copy of a pending fetch's key), a fetch future that owns an entry handle of the same shard and is not needed
+        import os
+        C.build_harness(["reentkeys"])
+        rc, out = C.sh([os.path.join(C.BIN, "reentkeys")], timeout=120)
+        keyruns = dict(t.split("=") for t in out.split() if "=" in t)
+        stuck = [k for k, v in keyruns.items() if v != "ok"]
+        if rc != 0 or stuck or not keyruns:
+            what = ("re-entrant destructors of user values: " + (", ".join(stuck) if stuck else out.strip()[:200]) +
+                    " - the call did not return (a key copy or a fetch future was dropped inside the cache's locks)")
+            rp = C.write_replay(pid, seed, "keys", dict(property=pid, stream="reentkeys", script="reentkeys", impl_obs=[out.strip()],
+                                                       oracle=dict(failed_at=0, what=what), broken=None))
+            violations.append(dict(replay=rp, what=what))
     if gate.get("failed") and not bad:
         rp = C.write_replay(pid, seed, "gate", dict(property=pid, oracle=None, broken=f"Coq gate for Props/{pid}.v: {gate['failed']}",
                                                    note=f"{len(scripts)} concurrent runs found no failing history"))
@@ -243,6 +258,7 @@ def run(pid, tier, seed, gate, replay=None):
         samples=[dict(script=scripts[0].strip().split("\n")[:10])],
         traces_validated_against_impl=len(scripts) - len(bad),
         input_distribution=dict(per_algorithm=per_algo, operations_executed=total_ops,
-                                reentrant_callbacks_executed=(callbacks if pid == "C16" else None)),
+                                reentrant_callbacks_executed=(callbacks if pid == "C16" else None),
+                                reentrant_key_and_future_destructors=keyruns),
         exhaustive=False)
     return cov, violations, ASSUME
